@@ -34,13 +34,24 @@ pub fn build_local_stat_symbol(
         let decl = builder.get_decl(&decl_id)?;
         let typ = builder.get_type(decl_id.into());
         let desc = builder.get_symbol_kind_and_detail(Some(&typ));
-        let range = if simple_local {
-            local_stat.get_range()
+        // the symbol's range must enclose its children (the value expression's symbols), so it is
+        // always the whole statement; with several names the name itself is the selection range
+        let symbol = if simple_local {
+            LuaSymbol::new(
+                decl.get_name().to_string(),
+                desc.1,
+                desc.0,
+                local_stat.get_range(),
+            )
         } else {
-            decl.get_range()
+            LuaSymbol::with_selection_range(
+                decl.get_name().to_string(),
+                desc.1,
+                desc.0,
+                local_stat.get_range(),
+                decl.get_range(),
+            )
         };
-
-        let symbol = LuaSymbol::new(decl.get_name().to_string(), desc.1, desc.0, range);
         let symbol_id =
             builder.add_node_symbol(local_name.syntax().clone(), symbol, Some(parent_id));
         let value_expr = local_values.get(index).cloned();
@@ -69,14 +80,25 @@ pub fn build_assign_stat_symbol(
             Some(decl) => decl,
             None => continue,
         };
-        let range = if simple_var {
-            assign_stat.get_range()
-        } else {
-            decl.get_range()
-        };
         let typ = builder.get_type(decl_id.into());
         let desc = builder.get_symbol_kind_and_detail(Some(&typ));
-        let symbol = LuaSymbol::new(decl.get_name().to_string(), desc.1, desc.0, range);
+        // see build_local_stat_symbol: the range always encloses the value expression's symbols
+        let symbol = if simple_var {
+            LuaSymbol::new(
+                decl.get_name().to_string(),
+                desc.1,
+                desc.0,
+                assign_stat.get_range(),
+            )
+        } else {
+            LuaSymbol::with_selection_range(
+                decl.get_name().to_string(),
+                desc.1,
+                desc.0,
+                assign_stat.get_range(),
+                decl.get_range(),
+            )
+        };
 
         let symbol_id = builder.add_node_symbol(var.syntax().clone(), symbol, Some(parent_id));
         let value_expr = exprs.get(index).cloned();
